@@ -354,6 +354,28 @@ func closeResets(w *World, fi *FuncInfo) map[*types.Var]string {
 						}
 					}
 				}
+				// h(&x.f) where the private helper assigns nil through the pointer: a reset of x.f
+				if cal := callee(info, s); cal != nil && !cal.Exported() {
+					if o := cal.Origin(); o != nil {
+						cal = o
+					}
+					if t := w.Decls[cal]; t != nil {
+						tinfo := t.Pkg.TypesInfo
+						k := 0
+						for _, fl := range t.Decl.Type.Params.List {
+							for _, nm := range fl.Names {
+								if k < len(s.Args) {
+									if ue, isU := unparen(s.Args[k]).(*ast.UnaryExpr); isU && ue.Op == token.AND {
+										if fv := fieldOf(info, ue.X); fv != nil && assignsNilThrough(tinfo, t, tinfo.Defs[nm]) {
+											out[fv] = "nil"
+										}
+									}
+								}
+								k++
+							}
+						}
+					}
+				}
 				// same-receiver helpers of Close (bound 3)
 				if cal := callee(info, s); cal != nil && cal.Name() != "Close" {
 					if t := w.Decls[cal]; t != nil && t.Pkg == f.Pkg && recvNamed(cal) != nil && recvNamed(fi.Obj) != nil &&
@@ -433,10 +455,26 @@ func recheckSpec(u *unit) Spec {
 				if _, _, op, ok := mutexOp(info, c); ok {
 					// entering or leaving a critical section invalidates earlier re-checks
 					_ = op
-					kill = append(kill, "chk:*")
+					kill = append(kill, "chk:*", "when:*")
 				}
 			}
-			return nil, kill
+			// open := x.table != nil  (the re-check kept in a flag, tested later in the same critical section)
+			if as, ok := n.(*ast.AssignStmt); ok && len(as.Lhs) == 1 && len(as.Rhs) == 1 {
+				if id, ok := unparen(as.Lhs[0]).(*ast.Ident); ok && id.Name != "_" {
+					kill = append(kill, "when:"+id.Name+"|*", "whennot:"+id.Name+"|*")
+					if tv, ok := info.Types[as.Rhs[0]]; ok && tv.Type != nil {
+						if b, isB := tv.Type.Underlying().(*types.Basic); isB && b.Info()&types.IsBoolean != 0 {
+							for _, f := range condFacts(as.Rhs[0], true) {
+								gen = append(gen, "when:"+id.Name+"|"+f)
+							}
+							for _, f := range condFacts(as.Rhs[0], false) {
+								gen = append(gen, "whennot:"+id.Name+"|"+f)
+							}
+						}
+					}
+				}
+			}
+			return gen, kill
 		},
 		Edge: func(b *cfg.Block, i int, cond ast.Expr, in Facts) (gen, kill []string) {
 			if cond == nil {
@@ -445,7 +483,29 @@ func recheckSpec(u *unit) Spec {
 			if _, isBool := info.Types[cond]; !isBool {
 				return nil, nil
 			}
-			return condFacts(cond, i == 0), nil
+			gen = condFacts(cond, i == 0)
+			// a flag that remembers a re-check made in this critical section
+			c := unparen(cond)
+			truth := i == 0
+			for {
+				un, ok := c.(*ast.UnaryExpr)
+				if !ok || un.Op != token.NOT {
+					break
+				}
+				c, truth = unparen(un.X), !truth
+			}
+			if id, ok := c.(*ast.Ident); ok {
+				pfx := "whennot:" + id.Name + "|"
+				if truth {
+					pfx = "when:" + id.Name + "|"
+				}
+				for k := range in {
+					if strings.HasPrefix(k, pfx) {
+						gen = append(gen, k[len(pfx):])
+					}
+				}
+			}
+			return gen, nil
 		},
 	}
 }
@@ -819,4 +879,20 @@ func paramAlwaysRepoFunc(o types.Object) bool {
 		}
 	}
 	return sites > 0
+}
+
+// assignsNilThrough: the function contains `*p = nil`.
+func assignsNilThrough(info *types.Info, t *FuncInfo, p types.Object) bool {
+	found := false
+	ast.Inspect(t.Decl.Body, func(n ast.Node) bool {
+		if as, ok := n.(*ast.AssignStmt); ok && len(as.Lhs) == len(as.Rhs) {
+			for i, l := range as.Lhs {
+				if st, isStar := unparen(l).(*ast.StarExpr); isStar && objOf(info, st.X) == p && isNilIdent(info, as.Rhs[i]) {
+					found = true
+				}
+			}
+		}
+		return true
+	})
+	return found
 }
